@@ -30,7 +30,8 @@ DiffEvent ==
      ELSE IF \E n \in NodeIds : run'[n] = run[n] + 1 THEN [Ev0 EXCEPT !.ev = "pod_schedule", !.g = G, !.n = CHOOSE n \in NodeIds : run'[n] = run[n] + 1]
      ELSE IF \E n \in NodeIds : run'[n] = run[n] - 1 /\ P2 = P THEN [Ev0 EXCEPT !.ev = "pod_finish", !.g = G, !.n = CHOOSE n \in NodeIds : run'[n] = run[n] - 1]
      ELSE IF pend' = pend - 1 THEN [Ev0 EXCEPT !.ev = "pod_finish", !.g = G]
-     ELSE IF asg'.members # asg.members /\ P2 = P /\ asg.members \ asg'.members # {} THEN [Ev0 EXCEPT !.ev = "instance_gone", !.g = G, !.n = CHOOSE n \in asg.members : n \notin asg'.members]
+     ELSE IF asg'.members # asg.members /\ P2 = P /\ asg.members \ asg'.members # {} THEN [Ev0 EXCEPT !.ev = IF (CHOOSE n \in asg.members : n \notin asg'.members) \in asg.terminating THEN "instance_gone" ELSE "instance_lost",
+                      !.g = G, !.n = CHOOSE n \in asg.members : n \notin asg'.members]
      ELSE IF asg'.members # asg.members /\ P2 = P THEN [Ev0 EXCEPT !.ev = "launch", !.g = G, !.n = CHOOSE n \in asg'.members : n \notin asg.members]
      ELSE IF P2 \ P # {} THEN [Ev0 EXCEPT !.ev = "register", !.g = G, !.n = CHOOSE n \in P2 : n \notin P, !.a = KC, !.b = KM]
      ELSE IF P \ P2 # {} THEN EN("node_gone", CHOOSE n \in P : n \notin P2)
@@ -46,7 +47,7 @@ DiffEvent ==
                                             ELSE IF api'[n1].taint.at < now - 1000 THEN "zero" ELSE "old"]
 
 EnvStep == (Tick \/ PodArrive \/ PodSchedule \/ PodFinish \/ CloudLaunch \/ Register \/ Cordon \/ Uncordon \/ ExtForce \/ ExtUnforce
-            \/ Annotate \/ Unannotate \/ ExtTaint \/ ExtUntaint \/ NodeGone \/ AsgEdit \/ DesiredBump \/ InstanceGone \/ LagOn \/ LagOff \/ Restart)
+            \/ Annotate \/ Unannotate \/ ExtTaint \/ ExtUntaint \/ NodeGone \/ AsgEdit \/ DesiredBump \/ InstanceGone \/ InstanceLost \/ LagOn \/ LagOff \/ Restart)
            /\ hist' = Append(hist, DiffEvent)
 
 SimScan ==
